@@ -6,7 +6,7 @@
 
   * Mutation becomes state passing: every operation returns the new state *and* `ok | err kind`;
     a raising setter returns the state it leaves behind (e.g. the bound setters store the bound
-    before the clamp raises).
+    before the clamp raises; since fix 2a4faa5 the clamp also runs for `= None`).
   * The file system is the parameter `Env` (which regular files exist with which size, which
     extra directories exist).  Paths are lists of components; absolute paths start with the
     component "/".
@@ -79,7 +79,8 @@ def defaultMin : Nat := 16 * 1024
 def defaultMax : Nat := 16 * 1024 * 1024
 def defaultName : String := "UNNAMED TORRENT"
 
-/-- `Torrent()` -/
+/-- `Torrent()`: `__init__` runs `piece_size_min = None; piece_size_max = None` on the empty
+    metainfo — no piece length exists, so the clamps do nothing (`setMin/setMax init none = init`) -/
 def init : St := { pmin := defaultMin, pmax := defaultMax }
 
 /-! ### derived attributes -/
@@ -176,29 +177,36 @@ def setPieceSize (s : St) (v : Option Int) : St × Res :=
     else checkAndStore s (calcPieceSize (size s) s.pmin s.pmax : Nat)
   | some x => checkAndStore s x
 
-/-- `Torrent.piece_size_min = v` -/
+/-- tail of the `piece_size_min` setter, run after the bound was stored (also for `None`):
+    `if self.piece_size: self.piece_size = max(self.piece_size_min, self.piece_size)` — goes
+    through the `piece_size` setter, which may raise and leave the stored bound behind -/
+def clampMin (s1 : St) : St × Res :=
+  match s1.pl with
+  | some pl => if pl ≠ 0 then setPieceSize s1 (some (max (s1.pmin : Int) pl)) else (s1, .ok)
+  | none => (s1, .ok)
+
+/-- `Torrent.piece_size_min = v` (`None` = class default; both branches clamp) -/
 def setMin (s : St) (v : Option Int) : St × Res :=
   match v with
-  | none => ({ s with pmin := defaultMin }, .ok)
+  | none => clampMin { s with pmin := defaultMin }
   | some x =>
     if !divisible x then (s, .err .pieceSize)
-    else
-      let s1 := { s with pmin := x.toNat }
-      match s1.pl with
-      | some pl => if pl ≠ 0 then setPieceSize s1 (some (max (s1.pmin : Int) pl)) else (s1, .ok)
-      | none => (s1, .ok)
+    else clampMin { s with pmin := x.toNat }
 
-/-- `Torrent.piece_size_max = v` -/
+/-- tail of the `piece_size_max` setter:
+    `if self.piece_size: self.piece_size = min(self.piece_size_max, self.piece_size)` -/
+def clampMax (s1 : St) : St × Res :=
+  match s1.pl with
+  | some pl => if pl ≠ 0 then setPieceSize s1 (some (min (s1.pmax : Int) pl)) else (s1, .ok)
+  | none => (s1, .ok)
+
+/-- `Torrent.piece_size_max = v` (`None` = class default; both branches clamp) -/
 def setMax (s : St) (v : Option Int) : St × Res :=
   match v with
-  | none => ({ s with pmax := defaultMax }, .ok)
+  | none => clampMax { s with pmax := defaultMax }
   | some x =>
     if !divisible x then (s, .err .pieceSize)
-    else
-      let s1 := { s with pmax := x.toNat }
-      match s1.pl with
-      | some pl => if pl ≠ 0 then setPieceSize s1 (some (min (s1.pmax : Int) pl)) else (s1, .ok)
-      | none => (s1, .ok)
+    else clampMax { s with pmax := x.toNat }
 
 /-! ### paths, filters -/
 
